@@ -202,6 +202,21 @@ class Session:
                 else:
                     d = host.append_set_dimension(labels=OWN_LABELS[1])
                 self.kept.append(d)
+            elif n == "AppendDimBad":
+                host = self.host if self.rnd.random() < 0.5 else self.host_b
+                why = act["why"]
+                if why == "interval_text":
+                    host.append_sampled_dimension("fast")
+                elif why == "ticks_unsorted":
+                    host.append_range_dimension(ticks=[3.0, 1.0, 2.0])
+                elif why == "ticks_text":
+                    host.append_range_dimension(ticks=["a", "b"])
+                elif why == "labels_nonstring":
+                    host.append_set_dimension(labels=[1, 2])
+                elif act["k"] == "sampled":
+                    host.append_sampled_dimension(0.5, **({"unit": 5} if why == "unit_type" else {"label": 5}))
+                else:
+                    host.append_range_dimension(ticks=OWN_TICKS[1], **({"unit": 5} if why == "unit_type" else {"label": 5}))
             elif n == "SetOwn":
                 d = self.dim(act["i"])
                 if act["k"] == "range":
@@ -281,6 +296,8 @@ def klass(act):
         return "SetAttr/%s/%s/%s" % (act["k"], act["f"], "linked" if act["linked"] else "own")
     if n == "WriteTarget":
         return "WriteTarget/%s" % act["f"]
+    if n == "AppendDimBad":
+        return "AppendDimBad/%s/%s" % (act["k"], act["why"])
     return n
 
 
@@ -303,10 +320,17 @@ def replay_one(tx):
                                 "replay": {"engine": "NixDimLink", "hist": tx["hist"], "act": act, "from": tx["from"],
                                            "to": tx["to"], "seed": opts["seed"], "ranks": ranks}})
     try:
-        for a in tx["hist"]:
+        for k, a in enumerate(tx["hist"]):
             exc = sess.apply(a)
             res["calls"] += 1
             if (exc is None) != (a["out"] == "ok"):
+                # reported here as well: the transition this call belongs to may have been skipped by the stride
+                res["findings"].append({
+                    "key": "dimlink/%s/%s/outcome:%s" % (klass(a), a["out"], "accepted" if exc is None else "raised_" + type(exc).__name__),
+                    "owner": "C05", "stage": "outcome",
+                    "detail": {"expected": a["out"], "observed": "ok" if exc is None else repr(exc)[:200], "in_history_at": k + 1},
+                    "replay": {"engine": "NixDimLink", "hist": tx["hist"][:k], "act": a, "from": None, "to": None,
+                               "seed": opts["seed"], "ranks": ranks}})
                 res["truncated"] = 1
                 return res
         if diff(expected(tx["from"], ranks), project(sess.host, sess.targets)):
